@@ -12,7 +12,8 @@
   Representation
     * dicts / OrderedDicts are association lists in insertion order (`aget`/`aset`/`adel`); `aset` on an existing key
       keeps its position (Python semantics), `lruPut` appends and pops the oldest entry when the cap is exceeded;
-    * a `Peer` is its key plus the `addresses` dict (slot = address class: 0 UDPv4Address, 1 UDPv6Address, 2 tuple);
+    * a `Peer` is its key, the `addresses` dict (slot = address class: 0 UDPv4Address, 1 UDPv6Address, 2 tuple,
+      3 UDPv4LANAddress, 4 DomainAddress, …) and the address it was constructed with (`Peer._address` start value);
       the graph holds one record per key.  Python object identity is modelled only where the code tests it
       (`is` in get_verified_by_address): the index maps a key to the *generation number* of the stored object (a fresh
       number each time a key becomes verified), and reverse_ip_lookup remembers (key, generation);
@@ -24,6 +25,7 @@ import Ipv8.C12.Gen
 namespace Ipv8.C12
 
 abbrev Key := Nat
+/-- service ids; 0 stands for the empty byte string `b""` (falsy in Python) -/
 abbrev Svc := Nat
 abbrev Bytes := List UInt8
 
@@ -38,6 +40,9 @@ deriving DecidableEq, Repr
 structure Peer where
   key : Key
   addrs : List (Nat × Addr)
+  /-- `Peer(key, address)`: the start value of `_address`; it stays the preferred address for as long as no class of
+      INTERFACE_ORDER is present in `addresses` (`_update_preferred_address` leaves `_address` alone then) -/
+  ctor : Option Addr := none
 deriving DecidableEq, Repr
 
 /-- `WalkableAddress(introduced_by, services, new_style)`; `intro = none` is `b""` -/
@@ -89,7 +94,10 @@ def preferredIn (order : List Nat) (addrs : List (Nat × Addr)) : Option Addr :=
     | some a => some a
     | none => preferredIn rest addrs
 
-def Peer.preferred (p : Peer) : Option Addr := preferredIn Gen.interfaceOrder p.addrs
+def Peer.preferred (p : Peer) : Option Addr :=
+  match preferredIn Gen.interfaceOrder p.addrs with
+  | some a => some a
+  | none => p.ctor
 
 /-! ### the graph proper -/
 structure Graph where
@@ -110,7 +118,13 @@ end Graph
 
 structure Net where
   g : Graph := {}
+  /-- `verified_by_public_key_bin`: key → the Peer OBJECT the index holds (objects are numbered) -/
   byKey : List (Key × Nat) := []
+  /-- which object the `verified_peers` set holds for a key -/
+  vgen : List (Key × Nat) := []
+  /-- content of the objects that are no longer in the set (as they were when they left it); caches and, in an
+      incoherent state, the index may still point at them -/
+  graveyard : List (Nat × Peer) := []
   nextGen : Nat := 0
   ipCache : List (Addr × (Key × Nat)) := []
   introCache : List (Key × List Addr) := []
@@ -123,8 +137,27 @@ deriving Repr
 /-- `key in verified_by_public_key_bin` -/
 def Net.known (s : Net) (k : Key) : Bool := (aget k s.byKey).isSome
 
-/-- identity of the object stored for a key -/
-def Net.genOf (s : Net) (k : Key) : Nat := (aget k s.byKey).getD 0
+/-- identity of the object the set holds for a key -/
+def Net.genOf (s : Net) (k : Key) : Nat := (aget k s.vgen).getD 0
+
+/-- dereference an object: its content is the set's record while the set holds exactly this object, otherwise what it
+    was when it left the set -/
+def Net.deref (s : Net) (k : Key) (gen : Nat) : Option Peer :=
+  if aget k s.vgen = some gen then s.g.find k else aget gen s.graveyard
+
+/-- `obj.addresses.update(new)` on the object the INDEX holds for `k` (add_verified_peer's "known" path, and what
+    lazy_wrapper does with `peer.add_address(source_address)`): the set's record changes only if the index and the set
+    hold the same object -/
+def Net.updateStored (s : Net) (k : Key) (new : List (Nat × Addr)) : Net :=
+  match aget k s.byKey with
+  | none => s
+  | some gen =>
+    if aget k s.vgen = some gen then
+      let v := s.g.verified.map (fun q => if q.key = k then { q with addrs := updateAddrs q.addrs new } else q)
+      { s with g := { s.g with verified := v } }
+    else
+      let gy := s.graveyard.map (fun e => if e.1 = gen then (e.1, { e.2 with addrs := updateAddrs e.2.addrs new }) else e)
+      { s with graveyard := gy }
 
 def init (ipCap introCap svcCap : Nat) : Net := { ipCap := ipCap, introCap := introCap, svcCap := svcCap }
 
@@ -137,14 +170,13 @@ def addMissing (all : List (Addr × WAddr)) : List Addr → List (Addr × WAddr)
 def Net.verifyNew (s : Net) (p : Peer) : Net :=
   { s with g := { s.g with verified := s.g.verified ++ [p] },
            byKey := aset p.key s.nextGen s.byKey,
+           vgen := aset p.key s.nextGen s.vgen,
            nextGen := s.nextGen + 1,
            svcCache := s.svcCache.filter (fun e => !s.g.hasService p.key e.1) }
 
 def Net.addVerified (s : Net) (p : Peer) : Net :=
   if p.key ∈ s.g.blMid then s
-  else if s.known p.key then
-    let v := s.g.verified.map (fun q => if q.key = p.key then { q with addrs := updateAddrs q.addrs p.addrs } else q)
-    { s with g := { s.g with verified := v } }
+  else if s.known p.key then s.updateStored p.key p.addrs
   else if p.addrList.any (fun a => s.g.knownAddr a) then
     if p.key ∈ s.g.keys then s else s.verifyNew p
   else if p.addrList.all (fun a => !decide (a ∈ s.g.blAddr)) then
@@ -164,7 +196,7 @@ def needsIntro (all : List (Addr × WAddr)) (known : Key → Bool) (a : Addr) : 
 /-- record `address` as introduced by `k`; a cached introduction list of `k` is extended, none is created -/
 def Net.introduce (s : Net) (k : Key) (a : Addr) (svc : Option Svc) (newStyle : Bool) : Net :=
   { s with g := { s.g with allAddr := aset a ⟨some k, svc, newStyle⟩ s.g.allAddr },
-           introCache := s.introCache.map (fun e => if e.1 = k then (e.1, e.2 ++ [a]) else e) }
+           introCache := s.introCache.map (fun e => if e.1 = k then (e.1, if a ∈ e.2 then e.2 else e.2 ++ [a]) else e) }
 
 def Net.discoverAddress (s : Net) (p : Peer) (a : Addr) (svc : Option Svc) (newStyle : Bool) : Net :=
   if a ∈ s.g.blAddr then s.addVerified p
@@ -185,18 +217,26 @@ def Net.discoverServices (s : Net) (p : Peer) (svcs : List Svc) : Net :=
   { s with g := { s.g with services := aset p.key (unionSvcs (s.g.servicesOf p.key) svcs) s.g.services },
            svcCache := svcs.foldl (touchSvc p.key) s.svcCache }
 
+/-- objects leaving the set keep their content -/
+def Net.bury (s : Net) (gone : List Peer) : List (Nat × Peer) :=
+  s.graveyard ++ gone.map (fun q => (s.genOf q.key, q))
+
 def Net.removePeer (s : Net) (p : Peer) : Net :=
   { s with g := { s.g with allAddr := s.g.allAddr.filter (fun e => !p.hasAddr e.1),
                            verified := s.g.verified.filter (fun q => !decide (q.key = p.key)),
                            services := adel p.key s.g.services },
-           byKey := adel p.key s.byKey }
+           byKey := adel p.key s.byKey,
+           vgen := adel p.key s.vgen,
+           graveyard := s.bury (s.g.verified.filter (fun q => decide (q.key = p.key))) }
 
 def Net.removeByAddress (s : Net) (a : Addr) : Net :=
   let gone : List Key := (s.g.verified.filter (fun q => q.hasAddr a)).map (·.key)
   { s with g := { s.g with allAddr := adel a s.g.allAddr,
                            verified := s.g.verified.filter (fun q => !q.hasAddr a),
                            services := s.g.services.filter (fun e => !decide (e.1 ∈ gone)) },
-           byKey := s.byKey.filter (fun e => !decide (e.1 ∈ gone)) }
+           byKey := s.byKey.filter (fun e => !decide (e.1 ∈ gone)),
+           vgen := s.vgen.filter (fun e => !decide (e.1 ∈ gone)),
+           graveyard := s.bury (s.g.verified.filter (fun q => q.hasAddr a)) }
 
 /-! ### snapshot codec (`default_serializer.pack/unpack("address", …)`) -/
 def beEnc : Nat → Nat → Bytes
@@ -213,9 +253,28 @@ def encodeAddr (a : Addr) : Bytes :=
   else if a.kind = 6 then [UInt8.ofNat Gen.typeV6] ++ fit Gen.v6HostLen a.host ++ beEnc Gen.v6PortLen a.port
   else [UInt8.ofNat Gen.typeDomain] ++ beEnc Gen.domLenLen a.host.length ++ a.host ++ beEnc Gen.domPortLen a.port
 
-/-- host names: only ASCII is modelled (`bytes.decode()` raises on invalid UTF-8; valid multi-byte text is outside
-    the model and not generated by the harness) -/
-def asciiOnly (b : Bytes) : Bool := b.all (fun x => x.toNat < 128)
+/-- `bytes.decode()` succeeds: well-formed UTF-8 (no overlong forms, no surrogates, nothing above U+10FFFF) -/
+def utf8Valid : Bytes → Bool
+  | [] => true
+  | b0 :: rest =>
+    let c (x : UInt8) : Bool := 0x80 ≤ x.toNat && x.toNat ≤ 0xBF
+    let n := b0.toNat
+    if n < 0x80 then utf8Valid rest
+    else if 0xC2 ≤ n && n ≤ 0xDF then
+      match rest with
+      | b1 :: r => c b1 && utf8Valid r
+      | _ => false
+    else if 0xE0 ≤ n && n ≤ 0xEF then
+      match rest with
+      | b1 :: b2 :: r =>
+        c b1 && c b2 && (n != 0xE0 || 0xA0 ≤ b1.toNat) && (n != 0xED || b1.toNat ≤ 0x9F) && utf8Valid r
+      | _ => false
+    else if 0xF0 ≤ n && n ≤ 0xF4 then
+      match rest with
+      | b1 :: b2 :: b3 :: r =>
+        c b1 && c b2 && c b3 && (n != 0xF0 || 0x90 ≤ b1.toNat) && (n != 0xF4 || b1.toNat ≤ 0x8F) && utf8Valid r
+      | _ => false
+    else false
 
 /-- `Address.unpack` on the bytes from `offset` on: the address and the number of bytes the offset advances;
     `none` = the call raises (struct.error, PackError, UnicodeDecodeError) -/
@@ -237,7 +296,7 @@ def decodeAddr (d : Bytes) : Option (Addr × Nat) :=
         let n := beDec (rest.take Gen.domLenLenUnpack)
         let host := (rest.drop Gen.domLenLenUnpack).take n
         if rest.length < Gen.domLenLenUnpack + n + Gen.domPortLenUnpack then none
-        else if !asciiOnly host then none
+        else if !utf8Valid host then none
         else some (⟨0, host, beDec ((rest.drop (Gen.domLenLenUnpack + n)).take Gen.domPortLenUnpack)⟩,
                    Gen.domAdvance + n)
     else none
@@ -282,7 +341,10 @@ def Net.chooseByAddr (s : Net) (a : Addr) (hint : Option Key) : Option Peer :=
     | none => none
   let cached : Option Peer := match aget a s.ipCache with
     | some (k, gen) =>
-      if aget k s.byKey = some gen then s.g.verified.find? (fun p => decide (p.key = k) && p.hasAddr a) else none
+      -- `peer = cache.pop(address)`; stale unless the index still holds this very object and it still has the address
+      match s.deref k gen with
+      | some obj => if aget k s.byKey = some gen ∧ a ∈ obj.addrList then some obj else none
+      | none => none
     | none => none
   match hinted with
   | some p => some p
@@ -297,8 +359,11 @@ def Net.getByAddr (s : Net) (a : Addr) (hint : Option Key) : Option Peer × Net 
   | some p => (some p, { s with ipCache := lruPut ip1 a (p.key, s.genOf p.key) s.ipCap })
   | none => (none, { s with ipCache := ip1 })
 
+/-- `verified_by_public_key_bin.get(k)`: the object the index holds -/
 def Net.getByKey (s : Net) (k : Key) : Option Peer :=
-  if s.known k then s.g.find k else none
+  match aget k s.byKey with
+  | some gen => s.deref k gen
+  | none => none
 
 def Net.peersForService (s : Net) (sv : Svc) : List Peer × Net :=
   let cache1 := adel sv s.svcCache
@@ -318,8 +383,13 @@ def Graph.walkFilter (g : Graph) (sv : Svc) (oldStyle : Bool) (a : Addr) : Bool 
         | none => false
       fromIntro || decide (w.svc = some sv)
 
+/-- `if service_id:` — `None` and the empty service id `b""` (service number 0) both mean "no service" -/
+def truthy : Option Svc → Option Svc
+  | some 0 => none
+  | x => x
+
 def Net.walkable (s : Net) (svc : Option Svc) (oldStyle : Bool) : List Addr × Net :=
-  match svc with
+  match truthy svc with
   | none =>
     let taken := s.g.verified.flatMap (·.addrList)
     ((akeys s.g.allAddr).filter (fun a => !decide (a ∈ taken)), s)
@@ -359,6 +429,7 @@ inductive Op where
   | blAddr (a : Addr)
   | blMid (k : Key)
   | load (d : Bytes)
+  | setAddr (k : Key) (slot : Nat) (a : Addr)
   | qAddr (a : Addr) (hint : Option Key)
   | qKey (k : Key)
   | qSvc (sv : Svc)
@@ -379,6 +450,7 @@ def step (s : Net) : Op → Net
   | .blAddr a => { s with g := { s.g with blAddr := s.g.blAddr ++ [a] } }
   | .blMid k => { s with g := { s.g with blMid := s.g.blMid ++ [k] } }
   | .load d => s.loadSnapshot d
+  | .setAddr k slot a => s.updateStored k [(slot, a)]
   | .qAddr a h => (s.getByAddr a h).2
   | .qKey _ => s
   | .qSvc sv => (s.peersForService sv).2
